@@ -184,6 +184,9 @@ TEXTS = [
     ('ok', "CREATE TABLE Y (q INTEGER);\nINSERT INTO Y VALUES ();\n"),
     ('bad', "INSERT INTO Y VALUES (, 7) garbage $\n"),
     ('bad', "INSERT INTO Y (q) VALUES (, 8);\nINSERT INTO Y VALUES (9) (\n"),
+    # complete statements of every kind in front of the error: nothing the parser noted about them may survive the rejection
+    ('bad', "CREATE TABLE Y (q INTEGER);\nCREATE TABLE W (Id UNIQUE_ID, A_Id UNIQUE_ID);\nCREATE UNIQUE INDEX I1 ON W (Id);\nCREATE ROP REF_ID R7 FROM MC W (A_Id) TO 1 A (Id);\n$\n"),
+    ('ok', "CREATE TABLE W (Id UNIQUE_ID, A_Id UNIQUE_ID);\nCREATE UNIQUE INDEX I1 ON W (Id);\nCREATE ROP REF_ID R7 FROM MC W (A_Id) TO 1 A (Id);\nINSERT INTO W VALUES (1, 1);\n"),
 ]
 NTX = len(TEXTS)
 
